@@ -213,7 +213,6 @@ func zeroTime() time.Time { return time.Time{} }
 // vmLine runs one line; returns whether a runtime error was raised.
 func vmLine(v *VM, name string) (errs int64, msg string) {
 	before := vExpvar("prog_runtime_errors_total", name)
-	v.runtimeError = ""
 	v.ProcessLogLine(context.Background(), logline.New(context.Background(), "file.log", "LINE"))
 	return vExpvar("prog_runtime_errors_total", name) - before, v.runtimeError
 }
